@@ -348,6 +348,135 @@ def replay_highlow(p, q, Kf):
   return f is None and g is None
 
 
+def unseeded_variants(rec, seed):
+  """Clause 4, plumbing part: for every listed unseeded output p_0 the check
+  tries p_0, p_0 | 2^(psize-1) and p_0 | 2^(psize-1) | 2^(psize-2) until one
+  factors (the factoring kernel itself is outside)."""
+  import contextlib  # pylint: disable=g-import-not-at-top
+  from harness import checklevel as cl  # pylint: disable=g-import-not-at-top
+  pb, rsc, rsa_util2, scf, util, roca = cl.mods()
+  rec.functions('paranoid_crypto.lib.rsa_single_checks:CheckUnseededRand.Check')
+  rec.bounds('one key, modulus in [2^63, 2^65) symbolic; Storage returns one '
+             'arbitrary candidate; FactorWithGuess = memoised contract stub')
+  chk = rsc.CheckUnseededRand(cl.FakeStorage())
+  cexs = []
+  reach = 0
+
+  def run(e):
+    n = ivar(e, 'n', lo=2**63, hi=2**65)
+    k = pb.RSAKey()
+    k.rsa_info.n = n
+    e.notes.update(n=n, key=k)
+    att = cl.Attach()
+    with stubs.patched(util, AttachFactors=att):
+      return chk.Check([k])
+
+  with contextlib.ExitStack() as st:
+    for mod, names in cl.patches(rsc, rsa_util2, scf, util, chk):
+      st.enter_context(stubs.patched(mod, **names))
+    for p in pysym.explore(run, max_paths=500):
+      e = p.eng
+      rec.path(p.kind)
+      if p.kind != 'return':
+        r, m = e.feasible()
+        if r != 'unsat':
+          rec.inconclusive('unexpected %s %r' % (p.kind, p.value))
+        continue
+      calls = [x for x in e.log if x[0] == 'kernel' and
+               x[1] == 'FactorWithGuess']
+      if any(x[3]['cls'] != 0 for x in calls):
+        continue  # a guess factored: the search may stop
+      n = e.notes['n']
+      psize = (n.bit_length() + 1) // 2
+      cands = e.memo.get(('storage', psize), [])
+      msb1 = 2**(psize - 1)
+      msb11 = msb1 | 2**(psize - 2)
+      for c in cands:
+        for want in (c, c | msb1, c | msb11):
+          goal = z3.Or([z3.And(T(x[2][0]) == n.t, T(x[2][1]) == T(want))
+                        for x in calls]) if calls else z3.BoolVal(False)
+          r, m, _ = e.prove(goal)
+          if r == 'proved':
+            rec.obligation('proved')
+          elif r == 'unknown':
+            rec.obligation('unknown', 'unseeded variants')
+          else:
+            cexs.append(inputs_of(e, m))
+      if reach == 0 and cands:
+        reach = 1
+        rec.sample(dict(check='CheckUnseededRand', guesses_tried=len(calls)))
+  rec.reach(1, reach)
+  if cexs:
+    bad = replay_unseeded()
+    rec.replayed()
+    rec.violation('rsa_single_checks.CheckUnseededRand.Check',
+                  'guess_variants',
+                  'a top-bit variant of a listed unseeded output is not tried',
+                  cexs[0], dict(module='harness.props.c04',
+                                function='replay_unseeded', args={}), bad)
+
+
+def replay_unseeded():
+  """Real check, real protobufs, user-supplied Storage with one candidate per
+  top-bit class; the key is built so that exactly one variant factors it."""
+  import gmpy2  # pylint: disable=g-import-not-at-top
+  from harness import pb2shim  # pylint: disable=g-import-not-at-top
+  pb = common.lib(fakes=False)
+  pb2shim.use_fakes(False)
+  from paranoid_crypto.lib import rsa_single_checks as rsc  # pylint: disable=g-import-not-at-top
+  from paranoid_crypto.lib import util  # pylint: disable=g-import-not-at-top
+  from paranoid_crypto.lib.data import storage  # pylint: disable=g-import-not-at-top
+  bad = False
+  psize = 512
+  for top in (0b00, 0b01, 0b10):
+    for variant in (0, 1, 2):
+      base = (top << (psize - 2)) | (0x1234567 << 300) | 0xabcdef
+      guess = [base, base | 2**(psize - 1),
+               base | 2**(psize - 1) | 2**(psize - 2)][variant]
+      p = int(gmpy2.next_prime(guess))
+      # a cofactor for which the exact guess factors n but the listed value
+      # itself (without the top bits) does not
+      from paranoid_crypto.lib import special_case_factoring as scf0  # pylint: disable=g-import-not-at-top
+      q = None
+      for t in range(1, 40):
+        qc = int(gmpy2.next_prime(2**(psize - 1) + t * 0x9E3779B97F4A7C15 *
+                                  2**300 + t))
+        nc = p * qc
+        if (nc.bit_length() + 1) // 2 != psize:
+          continue
+        if scf0.FactorWithGuess(nc, guess) and (
+            variant == 0 or not scf0.FactorWithGuess(nc, base)):
+          q = qc
+          break
+      if q is None:
+        continue
+      n = p * q
+      if (n.bit_length() + 1) // 2 != psize:
+        continue
+
+      class St(storage.Storage):
+
+        def GetUnseededRands(self, size, base=base):
+          return {base} if size == psize else set()
+
+        def GetKeypairData(self):
+          return None
+
+        def GetOpensslDenylist(self):
+          return set()
+
+      from paranoid_crypto.lib import special_case_factoring as scf  # pylint: disable=g-import-not-at-top
+      if not scf.FactorWithGuess(n, guess):
+        continue  # kernel limitation, not plumbing
+      k = pb.RSAKey()
+      k.rsa_info.n = util.Int2Bytes(n)
+      ok = rsc.CheckUnseededRand(St()).Check([k])
+      if not ok:
+        print('top bits %s variant %d: not factored' % (bin(top), variant))
+        bad = True
+  return bad
+
+
 def jobs(tier, seed):
   thorough = tier == 'thorough'
   out = []
@@ -361,6 +490,8 @@ def jobs(tier, seed):
     out.append(Job('fermat_complete_K%d_last' % K2, fermat_completeness,
                    dict(K=K2, j=K2 - 1), timeout=3000 if thorough else 400,
                    cost=K2 + 1))
+  out.append(Job('unseeded_variants', unseeded_variants, {}, timeout=900,
+                 cost=5))
   for K3 in ([0, 1, 4, 8] if not thorough else [0, 1, 4, 8, 16, 32]):
     out.append(Job('fermat_converse_K%d' % K3, fermat_none_beyond,
                    dict(K=K3), timeout=3000 if thorough else 400, cost=K3 + 1))
